@@ -140,3 +140,31 @@ func init() {
 		Assume: []string{"ratio compared in exact rationals; a result within the 18-decimal rounding band of the on-chain representation is counted, not reported"},
 	}
 }
+
+// derive registers base+suffix with wrapped generators (export point, injection points, ...).
+func derive(base, suffix string, wrap func(func(w *World) []OpGen) func(w *World) []OpGen) string {
+	b := scenarios[base]
+	if b == nil {
+		panic("derive: unknown scenario " + base)
+	}
+	c := *b
+	c.Name = base + suffix
+	c.Gens = wrap(b.Gens)
+	scenarios[c.Name] = &c
+	return c.Name
+}
+
+// registered after every scenario file's init() has run (Go runs init functions of one package in file-name order;
+// props.go sorts before scen_*.go, so derived scenarios are created lazily from main()).
+func registerDerived() {
+	for _, base := range []string{"dex", "lend"} {
+		if scenarios[base] == nil || scenarios[base].Gens == nil {
+			continue
+		}
+		e := derive(base, "+export", c20Gens)
+		i := derive(base, "+inject", c15Gens)
+		props["C20"].Scenarios = append(props["C20"].Scenarios, e)
+		props["C15"].Scenarios = append(props["C15"].Scenarios, i)
+		props["C16"].Scenarios = append(props["C16"].Scenarios, base)
+	}
+}
